@@ -51,10 +51,26 @@ SCAN_KINDS = {'int': dict(internal=True, recall=False, hook=True), 'rec': dict(i
               'hook': dict(internal=False, recall=False, hook=True), 'ext': dict(internal=False, recall=False, hook=False)}
 
 
+def scan_call(hs, tuples):
+    from sa import pureeval
+    p0 = hs.params[0] if hs.params else None
+    takes_chart = any(isinstance(x, ast.Attribute) and isinstance(x.value, ast.Name) and x.value.id == p0 and x.attr == 'rtc' for x in ast.walk(hs.node))
+    try:
+        return pureeval.call(hs.node, [pureeval.Obj(rtc=pureeval.Obj(tuples=tuples)) if takes_chart else tuples])
+    except TypeError as ex:
+        raise AnalysisError('trace wrapper: the hook-scan helper cannot be evaluated (%s)' % ex)
+
+
 def scan_eval(hs, seq):
     from sa import pureeval
     tuples = [pureeval.Obj(signal='S%d' % i, datetime=i, **SCAN_KINDS[kd]) for i, kd in enumerate(seq)]
-    return pureeval.call(hs.node, [pureeval.Obj(rtc=pureeval.Obj(tuples=tuples))])
+    # the helper is handed the chart (and reads chart.rtc.tuples) or the step's tuples themselves: which one shows in how its parameter is used
+    p0 = hs.params[0] if hs.params else None
+    takes_chart = any(isinstance(x, ast.Attribute) and isinstance(x.value, ast.Name) and x.value.id == p0 and x.attr == 'rtc' for x in ast.walk(hs.node))
+    try:
+        return pureeval.call(hs.node, [pureeval.Obj(rtc=pureeval.Obj(tuples=tuples)) if takes_chart else tuples])
+    except TypeError as ex:
+        raise AnalysisError('trace wrapper: the hook-scan helper cannot be evaluated (%s)' % ex)
 
 
 def hook_flag_index(hs):
@@ -132,6 +148,22 @@ def trace_render_pure(run, model):
 
 
 
+def record_fields(model, rec):
+    """{field: value expression} of a TraceTuple(...) construction, positional arguments mapped through the tuple's declared field order"""
+    if not isinstance(rec, ast.Call):
+        return {}
+    out = {k.arg: k.value for k in rec.keywords if k.arg}
+    if rec.args:
+        from sa.util import namedtuple_fields
+        nm = norm(rec.func).split('.')[-1]
+        fields = namedtuple_fields(model, nm) or []
+        for i, a in enumerate(rec.args):
+            if i < len(fields):
+                out.setdefault(fields[i], a)
+    return out
+
+
+
 def check(run, model, tier):
     run.explanation = ('Path-count and guard analysis of the two trace wrappers, and an outcome-completeness rule over the dispatch outcome switch and '
                        'over every package handler that is not spy-wrapped: the trace wrapper can only tell "transition" from "handled"/"ignored" '
@@ -189,7 +221,7 @@ def check(run, model, tier):
                 rec = resolve_name(c.args[0], defs) if c.args else None
                 if not isinstance(rec, ast.Call):
                     raise AnalysisError('trace record construction not found')
-                kw = {k.arg: k.value for k in rec.keywords}
+                kw = record_fields(model, rec)
                 ss = resolve_name(kw.get('start_state'), defs) if kw.get('start_state') is not None else None
                 es = resolve_name(kw.get('end_state'), defs) if kw.get('end_state') is not None else None
 
@@ -220,6 +252,11 @@ def check(run, model, tier):
             run.touch(hs)
             loops = [x for x in walk_shallow(hs.node) if isinstance(x, ast.For)]
             ok = len(loops) == 1 and ring_of(loops[0].iter) == 'rtc.tuples'
+            if not ok and len(loops) == 1 and isinstance(loops[0].iter, ast.Name) and loops[0].iter.id in hs.params:
+                # the helper is handed the tuples: every call site passes this step's ring
+                idx_ = hs.params.index(loops[0].iter.id)
+                sites_ = [c_ for c_ in shallow_calls(inner.node) if isinstance(c_.func, ast.Name) and c_.func.id == hs.name]
+                ok = bool(sites_) and all(idx_ < len(c_.args) and ring_of(c_.args[idx_]) == 'rtc.tuples' for c_ in sites_)
             run.inst('TRACE.transition-only', hs, 'hook scan iterates this step\'s tuples', ok, 'scan iterates %s' % (norm(loops[0].iter) if loops else None), obligation=True)
             # the scan is a pure function of the step's tuples: evaluate it on every sequence of up to 4 tuples over the four kinds
             # {internal, recall marker, external answered by a hook, external not a hook}: "hooked" must be exactly "some external tuple is a hook"
@@ -245,10 +282,11 @@ def check(run, model, tier):
         else:
             for n, c in apps:
                 rec = resolve_name(c.args[0], defs) if c.args else None
-                kw = {k.arg: k.value for k in rec.keywords} if isinstance(rec, ast.Call) else {}
+                kw = record_fields(model, rec)
                 ok = isinstance(kw.get('start_state'), ast.Constant) and kw['start_state'].value == 'top' and isinstance(kw.get('signal'), ast.Constant) and kw['signal'].value is None
                 run.inst('TRACE.at-most-one', inner, 'start record is (top, start_at, ...)', ok, 'start record fields: %s' % {k: norm(v) for k, v in kw.items()}, node=c, obligation=True)
                 es = kw.get('end_state')
+                es = resolve_name(es, defs) if es is not None else None        # through a local bound once
                 ok = isinstance(es, ast.Call) and dotted(es.func) in (recv + '.temp.fun', recv + '.state.fun') and any(signal_const(x) == 'REFLECTION_SIGNAL' for x in ast.walk(es))
                 run.inst('TRACE.at-most-one', inner, 'start record ends in the reflected current state', ok, 'end_state is %s' % (norm(es) if es is not None else None), node=c, obligation=True)
     # ---- who may put tuples into rtc.tuples that the hook scan *sees*: the scan takes the signal (and the hook flag) of the step from the tuples that are neither internal nor
@@ -290,8 +328,8 @@ def check(run, model, tier):
                 # is the tuple visible to the scan?  evaluate the scan on [an external offer of the event, this tuple] and on [the offer] alone
                 probe = _pe.Obj(signal='OTHER', datetime=99, **{k_: (v_ if v_ != '<dyn>' else False) for k_, v_ in fields.items() if k_ not in ('signal', 'datetime', 'state')})
                 offer = _pe.Obj(signal='EV', datetime=1, **SCAN_KINDS['ext'])
-                a1 = _pe.call(scan[0].node, [_pe.Obj(rtc=_pe.Obj(tuples=[offer]))])
-                a2 = _pe.call(scan[0].node, [_pe.Obj(rtc=_pe.Obj(tuples=[offer, probe]))])
+                a1 = scan_call(scan[0], [offer])
+                a2 = scan_call(scan[0], [offer, probe])
                 visible = a1 != a2
                 ok = (not visible) or f_.name in VISIBLE_OK
                 run.inst('TUPLES.writers', f_, 'tuple written by %s is %s the hook scan' % (f_.qualname, 'visible to' if visible else 'filtered out by'), ok,
